@@ -41,7 +41,7 @@ static void t2 (void *a) {
 }
 static void t3 (void *a) {
 	/* VRT_T3=2: directed -- start the notification only once free (c) has handed g over to P (P->adoptions != 0), or P is gone */
-	while (with_t3 == 2 && !vrt_is_freed (note[0]) && vrt_peek32 ((const char *) note[0] + adoptions_off) == 0) vrt_yield ();
+	while (with_t3 == 2 && vrt_peek32_or ((const char *) note[0] + adoptions_off, 1) == 0) vrt_yield ();
 	vrt_note ("call %d notify 2", vrt_self ());
 	nsync_note_notify (note[2]);
 	vrt_note ("ret %d -", vrt_self ());
